@@ -209,12 +209,29 @@ def arbitrary_tree(rng, cats, words, labels, depth=3, rich=True, which='en'):
 
 
 def placeholder():
-    """what parsing.pyx::run returns for a failed sentence (text taken from the source)"""
-    src = open(os.path.join(REPO, 'depccg/parsing.pyx'), encoding='utf-8').read()
-    m = re.search(r'def failed\(\):\s*return (\[.*?\n\s*\])', src, re.S)
-    if not m:
-        raise RuntimeError('failed() not found in parsing.pyx')
-    return eval(m.group(1), dict(ScoredTree=ScoredTree, Tree=Tree, Category=Category, float=float))
+    """what parsing.pyx::run returns for a failed sentence: the function of the file (nested in run or at module level, whatever its name) that builds a terminal
+    from a string literal - found in the DePyx text and executed on its own; the historical literal is the fall-back when no such function is recognised"""
+    import ast as _ast
+    try:
+        from vc import depyx
+        src, _ = depyx.load()
+        tree = _ast.parse(src)
+        for fn in _ast.walk(tree):
+            if not isinstance(fn, _ast.FunctionDef) or fn.args.args or fn.args.kwonlyargs or fn.args.vararg or fn.args.kwarg:
+                continue
+            lits = [c for c in _ast.walk(fn) if isinstance(c, _ast.Call) and isinstance(c.func, _ast.Attribute) and c.func.attr == 'make_terminal'
+                    and c.args and isinstance(c.args[0], _ast.Constant) and isinstance(c.args[0].value, str)]
+            if not lits or any(isinstance(n, (_ast.For, _ast.While, _ast.Yield)) for n in _ast.walk(fn)):
+                continue
+            mod = _ast.fix_missing_locations(_ast.Module(body=[fn], type_ignores=[]))
+            ns = dict(ScoredTree=ScoredTree, Tree=Tree, Category=Category, float=float)
+            exec(compile(mod, 'parsing.pyx[placeholder]', 'exec'), ns)
+            r = ns[fn.name]()
+            if isinstance(r, list) and r and isinstance(r[0], ScoredTree):
+                return r
+    except Exception:       # noqa
+        pass
+    return [ScoredTree(tree=Tree.make_terminal("FAILED", Category.parse("NP")), score=-float('inf'))]
 
 
 # ------------------------------------------------------------------ views and structural snapshots
